@@ -683,7 +683,105 @@ func init() {
 						}
 					}
 				}}
-			return []core.Section{reuse, sameName, large, {Name: "generated-values", N: n,
+			// one pointer, slice or map reachable through several places of the data (siblings, parent and child, several top-level
+			// names): every place shows it
+			type c12Doc struct {
+				Owner, Editor *c12Point
+				Tags, More    []string
+				Meta, Extra   map[string]any
+				Self          *c12Point
+			}
+			sharedCases := 8
+			shared := core.Section{Name: "values-reachable-twice", Exhaustive: true, N: sharedCases,
+				Run: func(c *core.Ctx, i int) {
+					ann := &c12Point{X: 3, Y: 4, hidden: "h"}
+					n := 41
+					tags := []string{"a", "b"}
+					meta := map[string]any{"k": 1, "p": ann}
+					var data map[string]any
+					var src, want string
+					switch i {
+					case 0:
+						data = map[string]any{"v": c12Doc{Owner: ann, Editor: ann}}
+						src, want = "{{ v.owner.x }}|{{ v.editor.y }}|{{ v.self }}", "3|4|"
+					case 1:
+						data = map[string]any{"v": []*int{&n, nil, &n, &n}}
+						src, want = "{{ v[0] }}|{{ v[1] }}|{{ v[2] }}|{{ v[3] + 1 }}", "41||41|42"
+					case 2:
+						data = map[string]any{"v": map[string]*c12Point{"a": ann, "b": ann, "c": nil}}
+						src, want = "{{ v.a.x }}|{{ v.b.x }}|{{ v.c }}", "3|3|"
+					case 3:
+						data = map[string]any{"v": c12Doc{Tags: tags, More: tags, Meta: meta, Extra: meta, Owner: ann}}
+						src, want = "{{ v.tags }}|{{ v.more[1] }}|{{ v.meta.k }}|{{ v.extra.p.x }}|{{ v.owner.y }}", "a, b|b|1|3|4"
+					case 4:
+						data = map[string]any{"a": ann, "b": ann, "c": []any{ann, ann}, "d": map[string]any{"again": ann}}
+						src, want = "{{ a.x }}|{{ b.y }}|{{ c[0].x }}|{{ c[1].y }}|{{ d.again.x }}", "3|4|3|4|3"
+					case 5:
+						pp := &ann
+						data = map[string]any{"v": []any{pp, ann, pp, *ann}}
+						src, want = "{{ v[0].x }}|{{ v[1].x }}|{{ v[2].y }}|{{ v[3].y }}", "3|3|4|4"
+					case 6:
+						row := []int{1, 2}
+						data = map[string]any{"v": [][]int{row, row, nil, row}}
+						src, want = "{{ v[0] }}|{{ v[1][1] }}|{{ v[2].len() }}|{{ v[3][0] }}", "1, 2|2|0|1"
+					default:
+						inner := map[string]any{"leaf": 9}
+						data = map[string]any{"v": map[string]any{"x": inner, "y": inner, "z": map[string]any{"deep": inner}}}
+						src, want = "{{ v.x.leaf }}|{{ v.y.leaf }}|{{ v.z.deep.leaf }}", "9|9|9"
+					}
+					c.Input(map[string]any{"source": src, "case": i})
+					got := evalString(c, src, data)
+					c.Nontrivial(fmt.Sprint("shared", i))
+					if !got.Panicked && (got.Err != nil || got.Out != want) {
+						c.Violation("value-reachable-twice", fmt.Sprintf("%s gave %s, want %q", src, got.Describe(), want), map[string]any{"source": src, "case": i})
+					}
+				}}
+			// the same view through every entry point: a loaded page through String and Response, a file, a string
+			entryStrings := []string{"50% off", "100%", "%d %s %v %%", "a%!b(MISSING)", "plain", "é中😀 & <b>", "%", "tab\tnew\nline", ""}
+			entries := core.Section{Name: "entry-points", Exhaustive: true, N: len(entryStrings),
+				Run: func(c *core.Ctx, i int) {
+					str := entryStrings[i]
+					data := map[string]any{"s": str, "n": 7, "u": c12User{Name: str, Age: 3}, "xs": []string{str, str}}
+					src := "<{{ s }}>|{{ n }}|{{ u.name }}|{{ xs }}|{{ s.len() }}"
+					want := evalString(c, src, data)
+					c.Input(map[string]any{"source": src, "s": str})
+					c.Nontrivial("entry:" + str)
+					if want.Failed() {
+						if !want.Panicked {
+							c.Violation("entry-point:string", "the string API failed: "+want.Err.Error(), map[string]any{"s": str})
+						}
+						return
+					}
+					if exp := "<" + str + ">|7|" + str + "|" + str + ", " + str + "|" + fmt.Sprint(utf8.RuneCountInString(str)); want.Out != exp {
+						c.Violation("entry-point:string", fmt.Sprintf("EvaluateString gave %q, want %q", want.Out, exp), map[string]any{"s": str})
+					}
+					files := map[string]string{"page.tw": src, "layouts/l.tw": "L[@reserve(\"b\")]", "with.tw": "@use(\"~l\")@insert(\"b\")" + src + "@end"}
+					tpl, err := loadTree(c, "c12entry", files, ".tw")
+					if err != nil || tpl == nil {
+						if err != nil {
+							c.Violation("entry-point:load", err.Error(), nil)
+						}
+						return
+					}
+					for page, w := range map[string]string{"page": want.Out, "with": "L[" + want.Out + "]"} {
+						if o, _ := renderPage(c, tpl, page, data); !o.Panicked && (o.Err != nil || o.Out != w) {
+							c.Violation("entry-point:String", fmt.Sprintf("Template.String(%s) gave %s, want %q", page, o.Describe(), w), map[string]any{"s": str})
+						}
+						rec := newRecorder()
+						var rerr error
+						c.Eval(1)
+						if !c.Guard(func() { rerr = tpl.Response(rec, page, data) }) && (rerr != nil || rec.body.String() != w) {
+							c.Violation("entry-point:Response", fmt.Sprintf("Response(%s) wrote %q (error %v), want %q", page, rec.body.String(), rerr, w), map[string]any{"s": str})
+						}
+					}
+					var fout string
+					var ferr error
+					c.Eval(1)
+					if !c.Guard(func() { fout, ferr = textwire.EvaluateFile("c12entry/page.tw", data) }) && (ferr != nil || fout != want.Out) {
+						c.Violation("entry-point:EvaluateFile", fmt.Sprintf("EvaluateFile gave (%q, %v), want %q", fout, ferr, want.Out), map[string]any{"s": str})
+					}
+				}}
+			return []core.Section{reuse, sameName, large, shared, entries, {Name: "generated-values", N: n,
 				Run: func(c *core.Ctx, i int) {
 					depth := 1 + i%4
 					// the same seed builds the value twice: one is rendered, one is the reference copy
